@@ -289,3 +289,32 @@ package bstree
 
 //@ guards bstree.BsTree.mu : root, size, all bstree.Node, all bstree.Item
 //@ lockinv bstree.BsTree : totalOrd(self.comp) && (self.root == nil || valid(self.root, self.comp, repr, keys, vals))
+
+// Traverse: only the locking is under contract (C01). The in-order content of what is sent over the channel and the
+// hand-over to the callback are not decided: channel operations carry no protocol in this verifier.
+//@ func (*bstree.Node).traverse
+//@   property C01
+//@   opt nil-receiver
+//@   opt conc-only
+//@   lock b.mu : R
+//@   requires b != nil
+//@   ensures true
+
+//@ func (*bstree.BsTree).Traverse$1
+//@   property C01
+//@   opt conc-only
+//@   lock b.mu : none
+//@   ghost-param repr map[*Node]set[*Node]
+//@   ghost-param keys map[*Node]set[K]
+//@   ghost-param vals map[*Node]map[K]V
+//@   requires b != nil
+//@   ensures true
+
+//@ func (*bstree.BsTree).Traverse
+//@   property C01
+//@   opt conc-only
+//@   lock b.mu : none
+//@   requires fn != nil
+//@   ensures true
+//@ loop 1
+//@   invariant true
